@@ -123,7 +123,7 @@ pub fn run(args: &Args) -> Report {
     for (a, b) in configs(thorough) {
         for cap in [0usize, 1] {
             for (name, streams) in scripts(thorough, a.0.max(b.0)) {
-                let cfg = XferCfg { a, b, cap, streams, stream_buffer: 4, one_byte_frames: false, dgram_pingpong: 0, dgram_buffer: 4, drop_mux_when_writers_done: None, horizon: 4000 };
+                let cfg = XferCfg { a, b, cap, streams, stream_buffer: 4, one_byte_frames: false, dgram_pingpong: 0, dgram_buffer: 4, drop_mux_when_writers_done: None, extra: xfer::XferExtra::NONE, horizon: 4000 };
                 let label = format!("{name} | {}", cfg.describe());
                 // with an unbounded link the steps of the two endpoints commute: the complete tree modulo that
                 // commutation is attempted after the bounded levels (sleep sets), for the one-stream scripts
@@ -142,9 +142,21 @@ pub fn run(args: &Args) -> Report {
             opener_plan: EndPlan::Split(vec![Op::W(2), Op::W(2), Op::W(1), Op::Shutdown], vec![Op::ReadToEof(4)]),
             acceptor_plan: EndPlan::Split(vec![Op::W(1), Op::Shutdown], vec![Op::ReadToEof(1)]),
         }];
-        let cfg = XferCfg { a, b, cap, streams, stream_buffer: 4, one_byte_frames: false, dgram_pingpong: 0, dgram_buffer: 4, drop_mux_when_writers_done: Some(0), horizon: 4000 };
+        let cfg = XferCfg { a, b, cap, streams, stream_buffer: 4, one_byte_frames: false, dgram_pingpong: 0, dgram_buffer: 4, drop_mux_when_writers_done: Some(0), extra: xfer::XferExtra::NONE, horizon: 4000 };
         let label = format!("writer done, then Multiplexor A dropped at any point | {}", cfg.describe());
         cases.push(Case { try_unbounded: false, max_k: u32::MAX, label, exec: Box::new(move |r| xfer::exec(&cfg, &or, r)) });
+    }
+    // the flow-id generator proposes ids that are taken (the id of the live first stream, 0, the id the other side is
+    // using): the streams still must not touch each other
+    for (rng_a, rng_b) in [(&[5u32, 5, 6][..], &[][..]), (&[5, 0, 5, 7], &[]), (&[5, 6], &[5, 5, 6, 8]), (&[9, 9, 9, 4], &[9, 4, 4, 3])] {
+        let streams = vec![
+            StreamSpec { tag: 1, opener: 0, opener_plan: split(vec![Op::W(3), Op::W(1)], 1), acceptor_plan: split(vec![Op::W(2)], 64) },
+            StreamSpec { tag: 2, opener: 0, opener_plan: split(vec![Op::WV(vec![2, 0, 1])], 64), acceptor_plan: split(vec![Op::W(1), Op::W(3)], 1) },
+            StreamSpec { tag: 3, opener: 1, opener_plan: split(vec![Op::W(2), Op::W(2)], 2), acceptor_plan: split(vec![Op::W(1)], 64) },
+        ];
+        let cfg = XferCfg { a: (2, 1), b: (2, 2), cap: 0, streams, stream_buffer: 4, one_byte_frames: false, dgram_pingpong: 0, dgram_buffer: 4, drop_mux_when_writers_done: None, extra: xfer::XferExtra { dgram_flood: 0, rng_a, rng_b }, horizon: 4000 };
+        let label = format!("3 streams, colliding flow-id draws | {}", cfg.describe());
+        cases.push(Case { try_unbounded: false, max_k: 1, label, exec: Box::new(move |r| xfer::exec(&cfg, &or, r)) });
     }
     // the smallest drivers: EVERY interleaving (modulo commutation of steps of different endpoints: sleep sets)
     for (a, b) in [((1u32, 1u32), (1u32, 1u32)), ((2, 1), (1, 1)), ((1, 1), (2, 2))] {
@@ -154,14 +166,14 @@ pub fn run(args: &Args) -> Report {
             opener_plan: EndPlan::Seq(vec![Op::W(2), Op::W(1), Op::Shutdown, Op::ReadToEof(4)]),
             acceptor_plan: EndPlan::Seq(vec![Op::ReadToEof(2), Op::W(1), Op::Shutdown]),
         }];
-        let cfg = XferCfg { a, b, cap: 0, streams, stream_buffer: 4, one_byte_frames: false, dgram_pingpong: 0, dgram_buffer: 4, drop_mux_when_writers_done: None, horizon: 4000 };
+        let cfg = XferCfg { a, b, cap: 0, streams, stream_buffer: 4, one_byte_frames: false, dgram_pingpong: 0, dgram_buffer: 4, drop_mux_when_writers_done: None, extra: xfer::XferExtra::NONE, horizon: 4000 };
         let label = format!("tiny, all interleavings | {}", cfg.describe());
         cases.push(Case { try_unbounded: true, max_k: 2, label, exec: Box::new(move |r| xfer::exec(&cfg, &or, r)) });
     }
     // micro cases: small enough for the UNREDUCED tree too (used to cross-check the sleep-set reduction)
     for (name, oa, ob) in [("micro-1", vec![Op::W(1)], vec![Op::ReadOnce(1)]), ("micro-2", vec![Op::W(1), Op::Shutdown], vec![Op::ReadToEof(2)])] {
         let streams = vec![StreamSpec { tag: 1, opener: 0, opener_plan: EndPlan::Seq(oa), acceptor_plan: EndPlan::Seq(ob) }];
-        let cfg = XferCfg { a: (1, 1), b: (1, 1), cap: 0, streams, stream_buffer: 4, one_byte_frames: false, dgram_pingpong: 0, dgram_buffer: 4, drop_mux_when_writers_done: None, horizon: 4000 };
+        let cfg = XferCfg { a: (1, 1), b: (1, 1), cap: 0, streams, stream_buffer: 4, one_byte_frames: false, dgram_pingpong: 0, dgram_buffer: 4, drop_mux_when_writers_done: None, extra: xfer::XferExtra::NONE, horizon: 4000 };
         let label = format!("{name}, all interleavings | {}", cfg.describe());
         cases.push(Case { try_unbounded: true, max_k: 1, label, exec: Box::new(move |r| xfer::exec(&cfg, &or, r)) });
     }
@@ -193,7 +205,7 @@ pub fn run(args: &Args) -> Report {
 fn por_selfcheck(args: &Args, rep: &mut Report, or: &Oracles) {
     use crate::explore::{Budget, Limits, explore, explore_por};
     let streams = vec![StreamSpec { tag: 1, opener: 0, opener_plan: EndPlan::Seq(vec![Op::W(1), Op::Shutdown]), acceptor_plan: EndPlan::Seq(vec![Op::ReadToEof(2)]) }];
-    let cfg = XferCfg { a: (1, 1), b: (1, 1), cap: 0, streams, stream_buffer: 4, one_byte_frames: false, dgram_pingpong: 0, dgram_buffer: 4, drop_mux_when_writers_done: None, horizon: 4000 };
+    let cfg = XferCfg { a: (1, 1), b: (1, 1), cap: 0, streams, stream_buffer: 4, one_byte_frames: false, dgram_pingpong: 0, dgram_buffer: 4, drop_mux_when_writers_done: None, extra: xfer::XferExtra::NONE, horizon: 4000 };
     let lim = Limits { max_execs: u64::MAX, deadline: std::time::Instant::now() + Duration::from_secs(600), threads: args.threads.max(1), stop_after_violation_kinds: 0 };
     let (red, pruned) = explore_por(lim, "por-selfcheck", || xfer::exec(&cfg, or, false));
     let full = explore(Budget::new(Budget::UNBOUNDED, 0, 0), lim, "por-selfcheck-full", || xfer::exec(&cfg, or, false));
